@@ -336,7 +336,11 @@ func c12GenGenesis(r *rand.Rand, variant int, n int) c12Gen {
 				g.Active = append(g.Active, c12Entry{A: a, Amt: strconv.Itoa(10+r.Intn(90)) + e18})
 			}
 			if r.Intn(2) == 0 {
-				g.RewBal = append(g.RewBal, c12Entry{A: a, Amt: strconv.Itoa(1000 + r.Intn(100000))})
+				if r.Intn(2) == 0 {
+					g.RewBal = append(g.RewBal, c12Entry{A: a, Amt: strconv.Itoa(20+r.Intn(200)) + e18})
+				} else {
+					g.RewBal = append(g.RewBal, c12Entry{A: a, Amt: strconv.Itoa(1000 + r.Intn(100000))})
+				}
 			}
 		}
 		// pending reward withdrawals: their scan prefix ends in the separator (no collisions)
@@ -461,6 +465,13 @@ func c12Chooser1(r *rand.Rand, n int, maxTx int, hist map[string]int, noDonate b
 				o, cls = c12Op{Kind: "donate", A: a, Amt: "-" + strconv.Itoa(1+r.Intn(5)) + e18}, "donate-negative"
 			default:
 				o, cls = c12Op{Kind: "donate", A: a, Amt: strconv.Itoa(1+r.Intn(5)) + e18}, "donate"
+			}
+			if r.Intn(12) == 0 {
+				// amounts around multiples of 2^64 nue (18.44.. OLT) and other power-of-two neighbours
+				pw := []string{"18446744073709551616", "36893488147419103232", "55340232221128654848", "18446744073709551617", "18446744073709551615", "9223372036854775808", "4294967296", "8589934592"}
+				kinds := []string{"withdrawrw", "reinvest", "withdrawrw", "reinvest", "delegate", "undelegate"}
+				o = c12Op{Kind: kinds[r.Intn(len(kinds))], A: a, Amt: pw[r.Intn(len(pw))]}
+				cls = o.Kind + "-pow2"
 			}
 			if noDonate && o.Kind == "donate" {
 				o, cls = c12Op{Kind: "withdrawrw", A: a, Amt: "1"}, "withdrawrw-one"
@@ -628,6 +639,18 @@ func c12Witnesses() []c12Spec {
 			name = "witness_reward_maturity_one_stays"
 		}
 		w = append(w, c12Spec{Name: name, NUsers: 2, Blocks: b})
+	}
+	// amounts that are multiples of 2^64 nue (and their neighbours) with accrued reward balances below
+	// (d1) and above (d0) them: a narrowing of the amount to 64 bits must not change anything
+	{
+		p64 := "18446744073709551616"
+		g := c12Gen{Active: []c12Entry{{A: 0, Amt: "100" + e18}, {A: 1, Amt: "100" + e18}}, RewBal: []c12Entry{{A: 0, Amt: "200" + e18}, {A: 1, Amt: "1000"}}}
+		b := [][]c12Op{{},
+			{{Kind: "withdrawrw", A: 1, Amt: p64}, {Kind: "reinvest", A: 1, Amt: "36893488147419103232"}, {Kind: "withdrawrw", A: 1, Amt: "55340232221128654848"}},
+			{{Kind: "withdrawrw", A: 0, Amt: p64}, {Kind: "reinvest", A: 0, Amt: "36893488147419103232"}, {Kind: "withdrawrw", A: 0, Amt: "18446744073709551617"}, {Kind: "reinvest", A: 0, Amt: "18446744073709551615"}},
+			{{Kind: "delegate", A: 1, Amt: p64}, {Kind: "undelegate", A: 1, Amt: p64}, {Kind: "withdrawrw", A: 1, Amt: "9223372036854775808"}, {Kind: "reinvest", A: 1, Amt: "4294967296"}},
+			{}, {}, {}, {}, {}}
+		w = append(w, c12Spec{Name: "witness_amounts_multiple_of_2p64", NUsers: 2, Gen: g, Blocks: b})
 	}
 	// a ZERO undelegation by one delegator (alone in the block for him) next to real undelegations of
 	// the others maturing at the same height: the zero entry is a real key of the scan; everybody else
